@@ -856,6 +856,16 @@ pub fn at_rest(rep: &mut Report, thorough: bool) {
     let y = Client::new("Y", Bk::Memory, &Cfg::default());
     let v = Client::new("V", Bk::Memory, &Cfg::default());
     let Mdk::Sql(xm, _) = &x.mdk else { return };
+    // SQLCipher does not encrypt temporary files: on an encrypted connection temporary storage has to be memory, whatever
+    // the size of a sort or a temporary index (checked on the connection itself; a spill needs megabytes of rows)
+    {
+        let ts: Option<i64> = xm.provider.storage().verif_with_connection(|conn| conn.query_row("PRAGMA temp_store", [], |r| r.get(0)).ok());
+        rep.case(&format!("temp-store|{ts:?}"));
+        rep.evaluations += 1;
+        if ts != Some(2) {
+            rep.finding(format!("C13|at-rest|temporary-storage-not-in-memory|temp_store={ts:?}"), format!("the connection of an encrypted database answers PRAGMA temp_store = {ts:?} (2 = memory): a statement that spills writes rows to an unencrypted temporary file"), json!({"temp_store": ts}));
+        }
+    }
     let mut scans = 0u64;
     let mut calls_scanned = 0u64;
     let found: Mutex<BTreeMap<String, String>> = Mutex::new(BTreeMap::new());
